@@ -5,7 +5,7 @@ cd /verif
 for d in seeded/C*; do
   p=$(basename $d | cut -c1-3)
   (cd $W && git checkout -q -- . && git apply /verif/$d/patch.diff) || { echo "$(basename $d): patch does not apply"; continue; }
-  out=$(VERIF_REPO=$W VERIF_NO_BOUNDED=1 ./bin/check $p 2>&1)
+  out=$(VERIF_REPO=$W VERIF_NO_BOUNDED=1 VERIF_OUT=/tmp/sd_out VERIF_EVIDENCE=/tmp/sd_evidence ./bin/check $p 2>&1)
   v=$(echo "$out" | grep -E "^(VIOLATION|OK|UNDECIDED)" | tail -1 | cut -c1-70)
   why=$(echo "$out" | grep -vE "^(VIOLATION|OK|UNDECIDED|failed obligation)" | head -1 | cut -c1-150)
   n=$(echo "$out" | grep -c "^failed obligation")
